@@ -9,6 +9,7 @@ package bulking
 //@ ghost loadCalls int
 //@ ghost lastLoad bool
 //@ ghost storeTrueCalls int
+//@ ghost lastSentHasError bool
 
 //@ assumed func (x *atomic.Bool) Load() (r bool)
 //@   modifies loadCalls, lastLoad
@@ -32,7 +33,7 @@ package bulking
 //@   ensures nRun == old(nRun) + 1 && lastRunCtrl == ctrl && lastRunHasError == hasError
 //@   lit 1:
 //@     property C32
-//@     modifies resultsSent, loadCalls, lastLoad, storeTrueCalls, ctrlWrites, lastWriteCtrl, lastIK, lastSchemaVersion, lastDryRun
+//@     modifies resultsSent, lastSentHasError, loadCalls, lastLoad, storeTrueCalls, ctrlWrites, lastWriteCtrl, lastIK, lastSchemaVersion, lastDryRun
 //@     requires is(element.Data, TransactionRequest) || is(element.Data, AddMetadataRequest) || is(element.Data, RevertTransactionRequest) || is(element.Data, DeleteMetadataRequest)
 //@     requires element.Action == "CREATE_TRANSACTION" ==> is(element.Data, TransactionRequest)
 //@     requires element.Action == "ADD_METADATA" ==> is(element.Data, AddMetadataRequest)
@@ -43,9 +44,11 @@ package bulking
 //@     ensures ctrlWrites <= old(ctrlWrites) + 1
 //@     ensures ctrlWrites == old(ctrlWrites) + 1 ==> lastWriteCtrl == ctrl && lastSchemaVersion == schemaVersion && lastIK == element.IdempotencyKey && !lastDryRun
 //@     ensures ctrlWrites == old(ctrlWrites) + 1 ==> loadCalls == old(loadCalls) + 1 && (!lastLoad || continueOnFailure)
+//@     ensures loadCalls == old(loadCalls) + 1 && !(lastLoad && !continueOnFailure) ==> (storeTrueCalls == old(storeTrueCalls) + 1) == lastSentHasError
+//@     ensures loadCalls == old(loadCalls) + 1 && !(lastLoad && !continueOnFailure) ==> storeTrueCalls <= old(storeTrueCalls) + 1
 //@     fnparam send_result(v) ():
-//@       modifies resultsSent
-//@       ensures resultsSent == old(resultsSent) + 1
+//@       modifies resultsSent, lastSentHasError
+//@       ensures resultsSent == old(resultsSent) + 1 && lastSentHasError == (v.Error != nil)
 //@   end
 
 //@ func (b *Bulker) Run(ctx context.Context, bulk Bulk, result chan BulkElementResult, bulkOptions BulkingOptions) (err error)
